@@ -605,6 +605,27 @@ func runCheck(id, tier string) int {
 	if len(agg.Extra) > 0 {
 		cov["extra"] = agg.Extra
 	}
+	fuzz := map[string]any{}
+	for _, r := range results {
+		if !strings.HasPrefix(r.phase, "fuzz") {
+			continue
+		}
+		if b, err := os.ReadFile(r.logPath); err == nil {
+			var execs, interesting int64
+			for _, l := range strings.Split(string(b), "\n") {
+				if i := strings.Index(l, "execs: "); i >= 0 {
+					fmt.Sscanf(l[i:], "execs: %d", &execs)
+				}
+				if i := strings.Index(l, "new interesting: "); i >= 0 {
+					fmt.Sscanf(l[i:], "new interesting: %d", &interesting)
+				}
+			}
+			fuzz[r.phase] = map[string]int64{"execs": execs, "new_interesting": interesting}
+		}
+	}
+	if len(fuzz) > 0 {
+		cov["native_fuzz"] = fuzz
+	}
 	if len(agg.Inconclusive) > 0 {
 		cov["inconclusive_parts"] = agg.Inconclusive
 	}
